@@ -1,6 +1,6 @@
 """C20 - results survive a JSON round trip and always print.
 
-R-Result: every field-kind combination of DfolsApi.tla's ResDomain (13 824 states) is enumerated by TLC and concretised into a synthetic
+R-Result: every field-kind combination of DfolsApi.tla's ResDomain (46 080 states, incl. infinite entries) is enumerated by TLC and concretised into a synthetic
 OptimResults object; plus every result of a whole-solver corpus (all exit flags reachable, diagnostics on/off, sizes either side of the
 printing thresholds, NaN fault overlays).  Oracle (harness/strace.roundtrip_ok): to_dict() is plain JSON-serialisable, strict JSON when NaN
 replacement is on; from_dict(json.loads(json.dumps(to_dict()))) reproduces every field exactly with None mapped back to NaN; identical str().
@@ -27,18 +27,22 @@ def build_result(st, seed):
     r = rng.normal(size=m)
     if st["resid"] == "nan":
         r[0] = np.nan
+    if st["resid"] == "inf":
+        r[0], r[1] = np.inf, -np.inf
     jac = None
     if st["jac"] != "none":
         mj = 80 if st["jac"] == "large" else m
         jac = rng.normal(size=(mj, n))
         if st["jac"] == "nan":
             jac[0, 0] = np.nan
+        if st["jac"] == "inf":
+            jac[0, 0], jac[1, 1] = np.inf, np.nan
     je = None
     if st["jacen"] == "short":
         je = np.arange(1, n + 2, dtype=int)
     elif st["jacen"] == "long":
         je = np.arange(1, 131, dtype=int)
-    obj = float(np.dot(r, r)) if st["obj"] == "finite" else float("nan")
+    obj = float(np.dot(rng.normal(size=4), rng.normal(size=4)) ** 2) if st["obj"] == "finite" else (float("inf") if st["obj"] == "inf" else float("nan"))
     s = OptimResults(x, r, obj, jac, 57, 43, int(st["nruns"]), int(st["flag"]), "Some message (flag %d)" % st["flag"], 17, je)
     if st["diag"] != "none":
         rows = 5
@@ -48,6 +52,10 @@ def build_result(st, seed):
         if st["diag"] == "table_nan":
             data["ratio"][0] = float("nan")
             data["fk"][2] = float("nan")
+        if st["diag"] == "table_inf":
+            data["ratio"][0] = float("-inf")
+            data["fk"][2] = float("inf")
+            data["delta"][1] = float("nan")
         s.diagnostic_info = pd.DataFrame(data)
     return s
 
@@ -76,7 +84,7 @@ def run(tier):
     wd = vlib.scratch()
     states, r = c07.tlc_states(wd, kinds=("res",))
     if tier == "quick":
-        states = states[::4] + [s for s in states if s["st"]["obj"] == "nan" and s["st"]["diag"] != "none"][::7]
+        states = states[::8] + [s for s in states if s["st"]["obj"] != "finite" and s["st"]["diag"] != "none"][::11]
     chunks = [states[i::16] for i in range(16)]
     ctx = mp.get_context("fork")
     with ctx.Pool(16) as pool:
@@ -115,7 +123,7 @@ def run(tier):
     cov = dict(states=r["distinct"], transitions=r["generated"], synthetic_results=nres, traces_validated_against_impl=tcov["traces_validated_against_impl"] + nres,
                evaluations=nres + tcov["evaluations"], distinct_nontrivial=nres + tcov["distinct_nontrivial"], solver_outcomes=tcov["outcomes"],
                exhaustive=(tier == "thorough"),
-               rule="one synthetic OptimResults per field-kind state of DfolsApi.tla (quick: every 4th state + NaN/diagnostic corner states) and every result of a solver corpus",
+               rule="one synthetic OptimResults per field-kind state of DfolsApi.tla (quick: every 8th state + NaN / infinity / diagnostic corner states) and every result of a solver corpus",
                samples=[dict(state=states[0]), tcov["samples"][0]])
     return V.finish(cov, "model_checking", ["logging.save_xk / save_rk (arrays inside the table) are a documented limitation and are not enabled",
                                             "infinite values are outside the property's letter: strict JSON is only required when no entry is infinite"])
